@@ -179,17 +179,38 @@ def path_obligations():
         init_best = ("item", cv0, fx.C(0))
         nsel_eq = None
         # the best score: the loop-carried variable (whatever its name) the step's score is compared with
-        cbest, bbest = _find_pc(st, lambda c: c[0] == "boolop" and c[1] == "And" and len(c[2]) == 2 and c[2][0][:2] == ("cmp", ("GtE",))
-                                and c[2][0][2][0] == score and c[2][0][2][1][:2] == ("loopvar", L1[0]))
-        best_lv = cbest[2][0][2][1] if cbest is not None else ("loopvar", L1[0], "?", None)
+        # (one merged test `score >= best and n_selected == d`, or two nested tests: decided semantically, engine/fxz3.py)
+        def _conj(c_):
+            return list(c_[2]) if c_[0] == "boolop" and c_[1] == "And" else [c_]
+        atoms = [k_ for c_, _b in st.pc for k_ in _conj(c_)]
+        ge = [k_ for k_ in atoms if k_[:2] == ("cmp", ("GtE",)) and k_[2][0] == score and k_[2][1][:2] == ("loopvar", L1[0])]
+        cbest = ge[0] if ge else None
+        best_lv = cbest[2][1] if cbest is not None else ("loopvar", L1[0], "?", None)
         b_out = st.env.get(best_lv[2])
-        ok_cb = cbest is not None and cbest[2][1][:2] == ("cmp", ("Eq",)) and cbest[2][1][2][0][:1] == ("callres",) \
-            and cbest[2][1][2][0][2] == "clf._n_selected_features" and cbest[2][1][2][1] == ("item", ("attr", V("X"), "shape"), fx.C(1))
-        if ok_cb:
+        allsel = [k_ for k_ in atoms if k_[:2] == ("cmp", ("Eq",)) and k_[2][0][:1] == ("callres",) and k_[2][0][2] == "clf._n_selected_features"
+                  and k_[2][1] == ("item", ("attr", V("X"), "shape"), fx.C(1))]
+        ok_cb = cbest is not None
+        bbest = None
+        if ok_cb and allsel:
             # 'still selected' is the count of the model AFTER the step's last epoch (a count taken earlier in the step is stale)
-            cid = cbest[2][1][2][0][1]
+            cid = allsel[0][2][0][1]
             at = [i for i, e in enumerate(ev) if e[0] == "call" and e[1] == cid]
             ok_cb = bool(at) and bool(x2) and at[0] > x2[-1]
+        from engine import fxz3
+        if ok_cb:
+            # the raising condition of this path: score >= best AND all features still selected -- true or false under the path condition
+            nsel_all = allsel[0] if allsel else None
+            tr = fxz3.Tr()
+            if nsel_all is not None:
+                cond = fxz3.z3.And(tr.boo(cbest), tr.boo(nsel_all))
+                up, _d = fxz3.entails(tr, st.pc, cond)
+                dn, _d = fxz3.entails(tr, st.pc, fxz3.z3.Not(cond))
+                bbest = True if up == "PROVED" else (False if dn == "PROVED" else None)
+            else:
+                # the count is not tested on this path: only sound if the score test already failed
+                dn, _d = fxz3.entails(tr, st.pc, fxz3.z3.Not(tr.boo(cbest)))
+                bbest = False if dn == "PROVED" else None
+            ok_cb = bbest is not None
         ob("best fold: best score is raised iff score >= best and all features are still selected", ok_cb,
            {"cond": fx.show(cbest) if cbest else None})
         if not ok_cb:
